@@ -98,6 +98,12 @@ type srun struct {
 	failed  bool
 	bad     string
 	depth   int
+	news    int // number of objects created so far (each `new` value carries its number in ev)
+}
+
+func (r *srun) newObj(t string) sv {
+	r.news++
+	return sv{k: "new", f: t, ev: r.news}
 }
 
 type symGiveUp struct{ why string }
@@ -192,13 +198,38 @@ func (r *srun) evalCall(fr *sframe, c *ast.CallExpr) []sv {
 	if s := src(c.Fun); s == "fmt.Errorf" || s == "errors.New" {
 		return []sv{{k: "errnew"}}
 	}
-	// p.F.Decode(buf) / p.F.Encode(buf)
+	// p.F.Decode(buf) / p.F.Encode(buf); the receiver may also be an expression that denotes a field's object
+	// (a local copy of the pointer, the result of a helper that returns it)
 	if sel, ok := c.Fun.(*ast.SelectorExpr); ok && len(c.Args) == 1 && r.isBufExpr(fr, c.Args[0]) && (sel.Sel.Name == "Decode" || sel.Sel.Name == "Encode") {
-		if f, ok := r.recvField(fr, sel.X); ok {
+		f, ok := r.recvField(fr, sel.X)
+		var at sv
+		if ok {
+			at = r.fieldVal(f)
+		} else if _, isRecv := sel.X.(*ast.Ident); !isRecv || src(sel.X) != fr.recv {
+			v := r.eval(fr, sel.X)
+			if len(v) == 1 {
+				switch v[0].k {
+				case "field":
+					f, at, ok = v[0].f, v[0], true
+					if cur, assigned := r.fields[f]; assigned && cur != v[0] {
+						ok = false // the field has been replaced since the pointer was taken
+					}
+				case "new", "lookupval":
+					for g, cur := range r.fields {
+						if cur == v[0] {
+							f, at, ok = g, cur, true
+						}
+					}
+				}
+			}
+			if !ok {
+				r.giveUp("method call on %s", src(sel.X))
+			}
+		}
+		if ok {
 			if (sel.Sel.Name == "Encode") != r.write {
 				r.giveUp("%s inside the other direction", sel.Sel.Name)
 			}
-			at := r.fieldVal(f)
 			kind := "decode"
 			if r.write {
 				kind = "encode"
@@ -298,126 +329,104 @@ func (r *srun) evalCall(fr *sframe, c *ast.CallExpr) []sv {
 	// NewT()
 	if t, ok := newStruct(c); ok {
 		if _, isTy := r.c.pi.structs[t]; isTy {
-			return []sv{{k: "new", f: t}}
+			return []sv{r.newObj(t)}
 		}
 	}
-	// helper(args…): a function of the package, executed in place (the buffer may be passed on; other arguments by value)
-	if id, ok := c.Fun.(*ast.Ident); ok {
-		if _, local := fr.sc.get(id.Name); !local {
-			if h := r.c.pi.funcs[id.Name]; h != nil && h.Body != nil && r.depth < 4 && h.Type.Params != nil {
-				nf := &sframe{recv: "", sc: &scope{vars: map[string]sv{}}}
-				var pnames []string
-				for _, p := range h.Type.Params.List {
-					for _, n := range p.Names {
-						pnames = append(pnames, n.Name)
-					}
-				}
-				if len(pnames) != len(c.Args) || len(pnames) == 0 {
-					r.giveUp("helper call: %s", src(c))
-				}
-				for i, a := range c.Args {
-					if r.isBufExpr(fr, a) {
-						nf.buf = pnames[i]
-						continue
-					}
-					v := r.eval(fr, a)
-					if len(v) != 1 {
-						r.giveUp("helper argument: %s", src(c))
-					}
-					nf.sc.vars[pnames[i]] = v[0]
-				}
-				nres := 0
-				var rnames []string
-				if h.Type.Results != nil {
-					for _, p := range h.Type.Results.List {
-						for _, n := range p.Names {
-							rnames = append(rnames, n.Name)
-							nf.sc.vars[n.Name] = sv{k: "zero"}
-						}
-						nres += max(1, len(p.Names))
-					}
-				}
-				if len(rnames) != 0 && len(rnames) != nres {
-					r.giveUp("helper results")
-				}
-				r.depth++
-				nf.sc = &scope{vars: map[string]sv{}, parent: nf.sc}
-				ret, vals := r.exec(nf, h.Body.List)
-				r.depth--
-				if (!ret || (len(vals) == 0 && nres != 0)) && len(rnames) == nres && nres != 0 {
-					vals = nil
-					for _, n := range rnames {
-						v, _ := nf.sc.get(n)
-						vals = append(vals, v)
-					}
-					ret = true
-				}
-				if !ret && nres != 0 {
-					r.giveUp("helper falls off its end")
-				}
-				if len(vals) != nres {
-					r.giveUp("helper result count")
-				}
-				return vals
+	// new(T)
+	if id, ok := c.Fun.(*ast.Ident); ok && id.Name == "new" && len(c.Args) == 1 {
+		if t, ok := c.Args[0].(*ast.Ident); ok {
+			if _, isTy := r.c.pi.structs[t.Name]; isTy {
+				return []sv{r.newObj(t.Name)}
 			}
 		}
 	}
-	// p.helper(buf) / p.helper(): a method of the same type, executed in place
+	// helper(args…) / p.helper(args…): a function of the package or a method of the same type, executed in place (the buffer
+	// may be passed on, other arguments are passed by value)
+	if id, ok := c.Fun.(*ast.Ident); ok {
+		if _, local := fr.sc.get(id.Name); !local {
+			if h := r.c.pi.funcs[id.Name]; h != nil && h.Body != nil && h.Type.Params != nil && len(c.Args) > 0 {
+				return r.callFunc(fr, c, h, "")
+			}
+		}
+	}
 	if sel, ok := c.Fun.(*ast.SelectorExpr); ok {
-		if id, ok := sel.X.(*ast.Ident); ok && id.Name == fr.recv {
-			h := r.c.pi.methods[r.c.tyName][sel.Sel.Name]
-			if h != nil && h.Body != nil && len(h.Recv.List[0].Names) == 1 && r.depth < 4 {
+		if id, ok := sel.X.(*ast.Ident); ok && id.Name == fr.recv && fr.recv != "" {
+			if h := r.c.pi.methods[r.c.tyName][sel.Sel.Name]; h != nil && h.Body != nil && len(h.Recv.List[0].Names) == 1 {
 				if _, ptr := h.Recv.List[0].Type.(*ast.StarExpr); !ptr {
 					r.giveUp("helper with a value receiver")
 				}
-				nf := &sframe{recv: h.Recv.List[0].Names[0].Name, sc: &scope{vars: map[string]sv{}}}
-				np := 0
-				if h.Type.Params != nil {
-					for _, p := range h.Type.Params.List {
-						np += len(p.Names)
-					}
-				}
-				switch {
-				case np == 0 && len(c.Args) == 0:
-				case np == 1 && len(c.Args) == 1 && r.isBufExpr(fr, c.Args[0]) && bufParam(h) != "":
-					nf.buf = bufParam(h)
-				default:
-					r.giveUp("helper call: %s", src(c))
-				}
-				nres := 0
-				if h.Type.Results != nil {
-					for _, p := range h.Type.Results.List {
-						if len(p.Names) > 0 {
-							if len(h.Type.Results.List) != 1 || len(p.Names) != 1 || typeStr(p.Type) != "error" {
-								r.giveUp("helper results")
-							}
-							nf.named = p.Names[0].Name
-							nf.sc.vars[nf.named] = sv{k: "nil"}
-						}
-						nres += max(1, len(p.Names))
-					}
-				}
-				r.depth++
-				ret, vals := r.exec(nf, h.Body.List)
-				r.depth--
-				if !ret {
-					if nres != 0 && nf.named == "" {
-						r.giveUp("helper falls off its end")
-					}
-					if nf.named != "" {
-						v, _ := nf.sc.get(nf.named)
-						vals = []sv{v}
-					}
-				}
-				if len(vals) != nres {
-					r.giveUp("helper result count")
-				}
-				return vals
+				return r.callFunc(fr, c, h, h.Recv.List[0].Names[0].Name)
 			}
 		}
 	}
 	r.giveUp("call: %s", src(c))
 	return nil
+}
+
+// callFunc executes the body of a helper with its parameters bound to the arguments' symbolic values
+func (r *srun) callFunc(fr *sframe, c *ast.CallExpr, h *ast.FuncDecl, recv string) []sv {
+	if r.depth >= 4 {
+		r.giveUp("helper nesting")
+	}
+	nf := &sframe{recv: recv, sc: &scope{vars: map[string]sv{}}}
+	var pnames []string
+	if h.Type.Params != nil {
+		for _, p := range h.Type.Params.List {
+			if len(p.Names) == 0 {
+				r.giveUp("helper with unnamed parameters")
+			}
+			for _, n := range p.Names {
+				pnames = append(pnames, n.Name)
+			}
+		}
+	}
+	if len(pnames) != len(c.Args) {
+		r.giveUp("helper call: %s", src(c))
+	}
+	for i, a := range c.Args {
+		if r.isBufExpr(fr, a) {
+			nf.buf = pnames[i]
+			continue
+		}
+		v := r.eval(fr, a)
+		if len(v) != 1 {
+			r.giveUp("helper argument: %s", src(c))
+		}
+		nf.sc.vars[pnames[i]] = v[0]
+	}
+	nres := 0
+	var rnames []string
+	if h.Type.Results != nil {
+		for _, p := range h.Type.Results.List {
+			for _, n := range p.Names {
+				rnames = append(rnames, n.Name)
+				nf.sc.vars[n.Name] = sv{k: "zero"}
+			}
+			nres += max(1, len(p.Names))
+		}
+	}
+	if len(rnames) != 0 && len(rnames) != nres {
+		r.giveUp("helper results")
+	}
+	r.depth++
+	nf.sc = &scope{vars: map[string]sv{}, parent: nf.sc}
+	ret, vals := r.exec(nf, h.Body.List)
+	r.depth--
+	if (!ret || (len(vals) == 0 && nres != 0)) && len(rnames) == nres && nres != 0 {
+		vals = nil
+		for _, n := range rnames {
+			v, _ := nf.sc.get(n)
+			vals = append(vals, v)
+		}
+		ret = true
+	}
+	if !ret && nres != 0 {
+		r.giveUp("helper falls off its end")
+	}
+	if len(vals) != nres {
+		r.giveUp("helper result count")
+	}
+	return vals
 }
 
 // normalised position: a constant offset that equals the width of the fixed-width call made at that position moves the
@@ -528,8 +537,7 @@ func (r *srun) frameCall(fr *sframe, c *ast.CallExpr) ([]sv, bool) {
 	}
 	// codec.Get("ALG")
 	if name, _, args, ok := codecCall(c); ok && name == "Get" && len(args) == 1 {
-		if bl, ok := args[0].(*ast.BasicLit); ok && bl.Kind == token.STRING {
-			alg := strings.Trim(bl.Value, "\"")
+		if alg, ok := strLit(args[0]); ok {
 			absent := r.isNilField("svc:" + alg)
 			if absent {
 				return []sv{{k: "nil"}, {k: "bool", b: false}}, true
@@ -619,6 +627,9 @@ func (r *srun) eval(fr *sframe, e ast.Expr) []sv {
 		if v, ok := fr.sc.get(x.Name); ok {
 			return []sv{v}
 		}
+		if n, ok := intLit(x); ok {
+			return []sv{{k: "const", off: n}}
+		}
 		r.giveUp("identifier %s", x.Name)
 	case *ast.SelectorExpr:
 		if f, ok := r.recvField(fr, x); ok {
@@ -640,7 +651,7 @@ func (r *srun) eval(fr *sframe, e ast.Expr) []sv {
 	case *ast.UnaryExpr:
 		if t, ok := newStruct(x); ok {
 			if _, isTy := r.c.pi.structs[t]; isTy {
-				return []sv{{k: "new", f: t}}
+				return []sv{r.newObj(t)}
 			}
 		}
 		r.giveUp("expression %s", src(x))
@@ -785,6 +796,58 @@ func (r *srun) exec(fr *sframe, stmts []ast.Stmt) (returned bool, vals []sv) {
 				fr.pop()
 			} else if x.Else != nil {
 				ret, v = r.exec(fr, []ast.Stmt{x.Else})
+			}
+			fr.pop()
+			if ret {
+				return true, v
+			}
+		case *ast.SwitchStmt:
+			// tagless switch = if-chain; `switch X { case nil: … default: … }` tests X against nil
+			fr.push()
+			if x.Init != nil {
+				if ret, v := r.exec(fr, []ast.Stmt{x.Init}); ret {
+					fr.pop()
+					return true, v
+				}
+			}
+			var chosen *ast.CaseClause
+			var deflt *ast.CaseClause
+			for _, cs := range x.Body.List {
+				cc := cs.(*ast.CaseClause)
+				if cc.List == nil {
+					deflt = cc
+					continue
+				}
+				if chosen != nil {
+					continue
+				}
+				for _, e := range cc.List {
+					hit := false
+					if x.Tag == nil {
+						hit = r.cond(fr, e)
+					} else {
+						hit = r.cond(fr, &ast.BinaryExpr{X: x.Tag, Op: token.EQL, Y: e})
+					}
+					if hit {
+						chosen = cc
+						break
+					}
+				}
+			}
+			if chosen == nil {
+				chosen = deflt
+			}
+			var ret bool
+			var v []sv
+			if chosen != nil {
+				for _, st := range chosen.Body {
+					if _, isFall := st.(*ast.BranchStmt); isFall {
+						r.giveUp("branch statement in switch")
+					}
+				}
+				fr.push()
+				ret, v = r.exec(fr, chosen.Body)
+				fr.pop()
 			}
 			fr.pop()
 			if ret {
